@@ -475,28 +475,32 @@ Definition cse_replace (m : model) (rem keep : node) (fresh : N) : model * N :=
   let g' := mkGraph (g_ins g) (g_inits g) (flat_map (fun n => if has_key k n then ids ++ [n] else [n]) (g_nodes g)) outs in
   (remove_node k (mkModel g' (m_subs m2) (m_funcs m2)), fr).
 
-Fixpoint cse_loop (size_limit : Z) (keys : list vid) (seen : list vid) (m : model) (fresh : N) : model * N :=
+(* 87b8ce6: the key also says WHICH outputs are omitted (empty name; `omitted` = the identities of such outputs): a node that
+   omits an optional output is not merged with one that uses it *)
+Definition cse_key_eqb_u (omitted : list vid) (a b : node) : bool :=
+  list_eqb Bool.eqb (map (fun v => memN v omitted) (n_outs a)) (map (fun v => memN v omitted) (n_outs b)) && cse_key_eqb a b.
+Fixpoint cse_loop (omitted : list vid) (size_limit : Z) (keys : list vid) (seen : list vid) (m : model) (fresh : N) : model * N :=
   match keys with
   | [] => (m, fresh)
   | k :: rest =>
     match find (has_key k) (g_nodes (m_main m)) with
-    | None => cse_loop size_limit rest seen m fresh
+    | None => cse_loop omitted size_limit rest seen m fresh
     | Some n =>
-      if cse_skip size_limit n then cse_loop size_limit rest seen m fresh
+      if cse_skip size_limit n then cse_loop omitted size_limit rest seen m fresh
       else
         match find (fun k' => match find (has_key k') (g_nodes (m_main m)) with
-                              | Some n' => cse_key_eqb n' n | None => false end) seen with
+                              | Some n' => cse_key_eqb_u omitted n' n | None => false end) seen with
         | Some k' =>
           match find (has_key k') (g_nodes (m_main m)) with
-          | Some keep => let '(m', fr) := cse_replace m n keep fresh in cse_loop size_limit rest seen m' fr
-          | None => cse_loop size_limit rest seen m fresh
+          | Some keep => let '(m', fr) := cse_replace m n keep fresh in cse_loop omitted size_limit rest seen m' fr
+          | None => cse_loop omitted size_limit rest seen m fresh
           end
-        | None => cse_loop size_limit rest (seen ++ [k]) m fresh
+        | None => cse_loop omitted size_limit rest (seen ++ [k]) m fresh
         end
     end
   end.
-Definition cse (size_limit : Z) (m : model) (fresh : N) : model * N :=
-  cse_loop size_limit (map node_key (g_nodes (m_main m))) [] m fresh.
+Definition cse (omitted : list vid) (size_limit : Z) (m : model) (fresh : N) : model * N :=
+  cse_loop omitted size_limit (map node_key (g_nodes (m_main m))) [] m fresh.
 
 (* ---------------------------------------------------------------- DeduplicateInitializersPass *)
 Definition tensor_size (t : tensor) : Z := fold_left Z.mul (t_shape t) 1%Z.
